@@ -7,6 +7,7 @@ import Rtp.Proofs.H264Split
 import Rtp.Proofs.H264History
 import Rtp.Proofs.H264Agg
 import Rtp.Proofs.H264ParseSound
+import Rtp.Proofs.H264SplitAll
 namespace Rtp.Props.C10
 open Rtp Rtp.Model Rtp.Model.H264 Rtp.Model.H264.Obs Rtp.Spec.Rfc6184 Rtp.Pred Rtp.Proofs.H264
 
@@ -25,6 +26,16 @@ theorem c10_split (units : List (Bool × Bytes)) (hne : units ≠ [])
 /-- a buffer without any start code is one unit -/
 theorem c10_split_bare (n : Bytes) (h : nalWF n = true) : emitNalus n = [n] :=
   emitNalus_bare n (nalOk_of_wf n h)
+
+/-- on ANY buffer (no hypothesis at all) no unit the splitter emits contains a start code; hence
+    re-splitting an emitted unit returns it whole — which is what the row-12 repair relies on when
+    it passes the pending SPS/PPS through a nested `Payload` -/
+theorem c10_split_units_clean (buf : Bytes) : ∀ u ∈ emitNalus buf, hasSC u = false :=
+  emitNalus_noSC buf
+
+theorem c10_repair_resplit (mtu : Nat) (s : Bytes) (h : hasSC s = false) :
+    payloadNoStap mtu s = stepNoStap mtu s :=
+  payloadNoStap_of_noSC mtu s h
 
 /-- non-vacuity, and the two interpretations recorded in DESIGN §7: a trailing zero in front of a
     3-byte start code is stripped (so `nalWF` has to exclude it) -/
